@@ -4,6 +4,9 @@ import AcraModel.CrossClient.Context
 import AcraModel.CrossClient.Keys
 import AcraModel.CrossClient.Token
 import AcraModel.CrossClient.Tls
+import AcraModel.CrossClient.TlsIdentity
+import AcraModel.CrossClient.TlsIdentityInj
+import AcraModel.CrossClient.TlsServer
 import AcraModel.CrossClient.BoxLaws
 import AcraModel.CrossClient.Box45
 import AcraModel.CrossClient.NoPanic
@@ -441,6 +444,190 @@ theorem tls_cross_client {c : CryptoOps} (hl : SealLaws c) (hc : SealCommit c) (
   cases hd : row.defined <;> simp only [hd, hov, Bool.not_false, Bool.not_true, if_true, if_false]
   exact cross_client_decrypt hl hc hm hp hs hab hown
 
+/-! ## which identity a TLS connection gets (`network/tls_authentication.go`) -/
+
+/-- The two identifier extractors that `--tls_identifier_extractor_type` selects, what they read of the
+certificate (`Subject.String()` / `SerialNumber.Bytes()` and nothing else), the errors they return, and that
+they are field-less value types (nothing to remember). Regenerated from the source. -/
+theorem fact_identifier_extractors :
+    TlsIdentity.extractorByType = [("distinguished_name", "DistinguishedNameExtractor"), ("serial_number", "SerialNumberExtractor")] ∧
+    TlsIdentity.defaultExtractorType = "distinguished_name" ∧
+    TlsIdentity.identifierReads = [("DistinguishedNameExtractor", ["certificate.Subject.String"]),
+      ("SerialNumberExtractor", ["certificate.SerialNumber", "certificate.SerialNumber.Bytes"])] ∧
+    TlsIdentity.identifierValue = [("DistinguishedNameExtractor", ["certificate.Subject.String()"]),
+      ("SerialNumberExtractor", ["certificate.SerialNumber.Bytes()"])] ∧
+    TlsIdentity.identifierErrors = [("DistinguishedNameExtractor", ["ErrNoPeerCertificate", "ErrEmptyIdentifier"]),
+      ("SerialNumberExtractor", ["ErrNoPeerCertificate", "ErrEmptyIdentifier"])] ∧
+    TlsIdentity.identifierExtractorShape = [("DistinguishedNameExtractor", "fields=0 pointer-receiver=false calls=certificate.Subject.String"),
+      ("SerialNumberExtractor", "fields=0 pointer-receiver=false calls=certificate.SerialNumber.Bytes")] := by decide
+
+/-- `HexIdentifierConverter`: its only field is the hash constructor (`sha512.New` by default, 64-byte digests),
+`Convert` has a value receiver and is `hex.Encode(out, newHash().Write(identifier).Sum(nil))`. -/
+theorem fact_converter_is_hex_of_hash :
+    TlsIdentity.converterFields = [("newHash", "func() hash.Hash")] ∧ TlsIdentity.converterDefaultHash = "sha512.New" ∧
+    TlsIdentity.sha512Size = 64 ∧ TlsIdentity.convertPointerReceiver = false ∧ TlsIdentity.convertReceiverUses = ["c.newHash"] ∧
+    TlsIdentity.convertCalls = ["hex.EncodedLen", "c.newHash", "h.Write", "h.Sum", "hex.Encode"] ∧
+    TlsIdentity.convertDataFlow = ["h.Write(identifier)", "h.Sum(nil)", "hex.Encode(out,identifier)"] := by decide
+
+/-- **The extractor object has no memory.** `tlsClientIDExtractor` consists of its two components;
+`ExtractClientID` calls `idExtractor.GetCertificateIdentifier(certificate)` and `idConverter.Convert(identifier)`
+and nothing else (logging aside), touches no other part of the receiver, reads no certificate field itself,
+returns the converter's result, and the file has no package-level variable a cache could live in. A memo
+table (a new field, a `Load`/`Store` call, a read of `certificate.Subject.CommonName`) changes these tables. -/
+theorem fact_extractor_has_no_state :
+    TlsIdentity.extractorFields = [("idExtractor", "CertificateIdentifierExtractor"), ("idConverter", "IdentifierConverter")] ∧
+    TlsIdentity.extractCalls = ["extractor.idExtractor.GetCertificateIdentifier", "extractor.idConverter.Convert"] ∧
+    TlsIdentity.extractReceiverUses = ["extractor.idConverter.Convert", "extractor.idExtractor.GetCertificateIdentifier"] ∧
+    TlsIdentity.extractCertificateReads = [] ∧
+    TlsIdentity.extractDataFlow = ["identifier, err := extractor.idExtractor.GetCertificateIdentifier(certificate)", "return nil, err",
+      "clientID, err := extractor.idConverter.Convert(identifier)", "return nil, err", "return clientID, nil"] ∧
+    TlsIdentity.packageVars = ["IdentifierExtractorTypesList"] ∧
+    TlsIdentity.extractorConstructors = [("NewTLSClientIDExtractor", ["idExtractor=idExtractor", "idConverter=idConverter"]),
+      ("NewDefaultTLSClientIDExtractor", ["idExtractor=idExtractor", "idConverter=idConverter"])] := by decide
+
+/-- `pkix.Name.String()` of the Go toolchain in use: the nine standard attributes in print order, the two
+single-valued ones only when non-empty, the escaped characters and the separators the model uses. -/
+theorem fact_pkix_name_string :
+    TlsIdentity.rdnPrinted.map (·.1) = ["SerialNumber", "CommonName", "OrganizationalUnit", "Organization", "PostalCode",
+      "StreetAddress", "Locality", "Province", "Country"] ∧
+    TlsIdentity.rdnSingleNonEmpty = ["CommonName", "SerialNumber"] ∧
+    TlsIdentity.appendRDNsSkip = "len(values) == 0 || oidInAttributeTypeAndValue(oid, n.ExtraNames)" ∧
+    TlsIdentity.rdnEscapeCases = ["44,43,34,92,60,62,59 => true", "32 => k == 0 || k == len(valueString)-1", "35 => k == 0"] ∧
+    TlsIdentity.rdnStringLits = ["", ",", "+", "=#", "="] := by decide
+
+/-- **`extract_stateless`.** The extractor is a function of the certificate. Whatever certificates one
+long-lived extractor has seen before (`pre`) and sees afterwards (`post`), the connection presenting `c`
+gets `extractClientID c` – the same certificate always gets the same id, the id of one certificate does not
+depend on the others – and the extractor object is unchanged by a call. -/
+theorem extract_stateless (e : Extractor) (pre post : List (Option Cert)) (c : Option Cert) :
+    (e.run (pre ++ c :: post))[pre.length]? = some (extractClientID e.hash e.mode c) ∧ (e.extract c).1 = e := by
+  refine ⟨?_, rfl⟩
+  rw [Extractor.run_eq_map]
+  simp
+
+/-- … in particular the results of a run are those of any reordering of it, certificate by certificate -/
+theorem extract_order_irrelevant (e : Extractor) (cs cs' : List (Option Cert)) (c : Option Cert) (i j : Nat)
+    (hi : cs[i]? = some c) (hj : cs'[j]? = some c) : (e.run cs)[i]? = (e.run cs')[j]? := by
+  rw [Extractor.run_eq_map, Extractor.run_eq_map]
+  simp [hi, hj]
+
+/-- **`tls_identity_injective_partial`.** Two certificates whose identifiers differ – the RFC 2253 form of
+the subject in `distinguished_name` mode, the serial number bytes in `serial_number` mode – never get the
+same client id, provided the hash does not collide on the identifiers at hand (`ids`, an explicit finite
+list). Partial: collision freedom of SHA-512 is a hypothesis, and "different DN" is taken at the level of
+`Subject.String()` (the standard library's formatter; two subjects with the same string form are one
+identity for Acra by construction). -/
+theorem tls_identity_injective_partial (h : Bytes → Bytes) (m : IdMode) (ids : List Bytes) (hnc : NoColl h ids)
+    {c1 c2 : Option Cert} {i1 i2 id1 id2 : Bytes}
+    (h1 : certIdentifier m c1 = .ok i1) (h2 : certIdentifier m c2 = .ok i2) (m1 : i1 ∈ ids) (m2 : i2 ∈ ids) (hne : i1 ≠ i2)
+    (e1 : extractClientID h m c1 = .ok id1) (e2 : extractClientID h m c2 = .ok id2) : id1 ≠ id2 := by
+  obtain ⟨j1, hj1, rfl⟩ := extractClientID_ok e1
+  obtain ⟨j2, hj2, rfl⟩ := extractClientID_ok e2
+  rw [h1] at hj1; rw [h2] at hj2
+  cases hj1; cases hj2
+  intro heq
+  exact hne (hnc _ m1 _ m2 (hexLower_injective heq))
+
+/-- `serial_number` mode, at full strength on the certificate side: different serial numbers, different ids
+(the big-endian bytes of a number determine it). -/
+theorem tls_identity_injective_serial (h : Bytes → Bytes) {c1 c2 : Cert} (hne : c1.serial ≠ c2.serial)
+    (hnc : NoColl h [natBE c1.serial, natBE c2.serial]) {id1 id2 : Bytes}
+    (e1 : extractClientID h .serialNumber (some c1) = .ok id1) (e2 : extractClientID h .serialNumber (some c2) = .ok id2) : id1 ≠ id2 :=
+  tls_identity_injective_partial h .serialNumber _ hnc (i1 := natBE c1.serial) (i2 := natBE c2.serial) rfl rfl
+    (by simp) (by simp) (fun he => hne (natBE_injective he)) e1 e2
+
+/-- `distinguished_name` mode: different string forms of the subject, different ids. -/
+theorem tls_identity_injective_dn (h : Bytes → Bytes) {c1 c2 : Cert} (hne : dnString c1.subject ≠ dnString c2.subject)
+    (hnc : NoColl h [dnString c1.subject, dnString c2.subject]) {id1 id2 : Bytes}
+    (e1 : extractClientID h .distinguishedName (some c1) = .ok id1) (e2 : extractClientID h .distinguishedName (some c2) = .ok id2) : id1 ≠ id2 := by
+  have k : ∀ (c : Cert) (id : Bytes), extractClientID h .distinguishedName (some c) = .ok id →
+      certIdentifier .distinguishedName (some c) = .ok (dnString c.subject) := by
+    intro c id hx
+    obtain ⟨j, hj, _⟩ := extractClientID_ok hx
+    unfold certIdentifier at hj ⊢
+    simp only [] at hj ⊢
+    split at hj
+    · cases hj
+    · rename_i hemp; rw [if_neg hemp]
+  exact tls_identity_injective_partial h .distinguishedName _ hnc (k c1 id1 e1) (k c2 id2 e2) (by simp) (by simp) hne e1 e2
+
+/-- **The string form of a subject determines the subject** (`pkix.Name.String()` on the standard
+attributes is injective: separators and backslashes inside values are escaped, the short names are distinct
+and end in their only `=`). So "different distinguished name" may be read on the parsed certificate. -/
+theorem dn_string_injective {n1 n2 : Name} (h : dnString n1 = dnString n2) : n1 = n2 := dnString_injective h
+
+/-- `distinguished_name` mode on the certificate side at full strength: two certificates whose subjects differ
+in any standard attribute (another OU, another O, another CN, …) get different client ids. -/
+theorem tls_identity_injective_subject (h : Bytes → Bytes) {c1 c2 : Cert} (hne : c1.subject ≠ c2.subject)
+    (hnc : NoColl h [dnString c1.subject, dnString c2.subject]) {id1 id2 : Bytes}
+    (e1 : extractClientID h .distinguishedName (some c1) = .ok id1) (e2 : extractClientID h .distinguishedName (some c2) = .ok id2) : id1 ≠ id2 :=
+  tls_identity_injective_dn h (fun he => hne (dnString_injective he)) hnc e1 e2
+
+/-- the same certificate – indeed any two certificates with the same identifier – gets the same id -/
+theorem tls_identity_deterministic (h : Bytes → Bytes) (m : IdMode) {c1 c2 : Option Cert}
+    (hs : certIdentifier m c1 = certIdentifier m c2) : extractClientID h m c1 = extractClientID h m c2 := by
+  unfold extractClientID; rw [hs]
+
+/-- deriving an identity never panics, and a derived id is the hex text of one digest -/
+theorem tls_identity_total (h : Bytes → Bytes) (m : IdMode) (c : Option Cert) :
+    extractClientID h m c ≠ .panic ∧ ∀ id, extractClientID h m c = .ok id → ∃ ident, id.length = 2 * (h ident).length := by
+  refine ⟨extractClientID_never_panics h m c, ?_⟩
+  intro id hx
+  obtain ⟨j, _, rfl⟩ := extractClientID_ok hx
+  exact ⟨j, convert_length h j⟩
+
+/-! ## what the gRPC server registers (`cmd/acra-translator/grpc_api/factory.go`) -/
+
+/-- **Every registration gets the TLS wrapper.** Each `Register<Service>Server` call of `NewServer` passes a
+variable that, at that point, holds `NewTLSDecryptServiceWrapper(plain service, data.TLSClientIDExtractor)`
+whenever `data.UseConnectionClientID` is set. Regenerated from the source. -/
+theorem fact_every_registration_wrapped : ∀ r ∈ registrations, r.holds = "tls" := by decide
+
+/-- the service handed to `OngRPCServerInit` subscribers (which may register further gRPC services around it)
+is the wrapped one as well -/
+theorem fact_server_init_hook_wrapped : TlsIdentity.serverInitHook = [("OngRPCServerInit", "newService", "tls")] := by decide
+
+/-- every RPC of the wrapper table belongs to a registered service, and every service of the API is registered -/
+theorem fact_every_rpc_registered :
+    (∀ row ∈ rpcTable, (regOf row.name).isSome = true) ∧
+    (∀ s ∈ TlsIdentity.serviceRpcs, registrations.any (fun r => r.service == s.1) = true) ∧
+    (∀ s ∈ TlsIdentity.serviceRpcs, ∀ rpc ∈ s.2, (rpcTable.find? (·.name == rpc)).isSome = true) := by decide
+
+/-- **`server_request_id_ignored`.** On the server that `NewServer` builds with `UseConnectionClientID`, the
+result of every RPC is independent of the client id named in the request. -/
+theorem server_request_id_ignored {R : Type} (rpc : String) (svc : Request → R) (e : R) (conn : ConnId) (p x y : Bytes) :
+    serverCall true rpc svc e conn ⟨x, p⟩ = serverCall true rpc svc e conn ⟨y, p⟩ :=
+  serverCall_overriding fact_every_registration_wrapped fact_tls_overrides_all rpc svc e conn p x y
+
+/-- **End to end.** Two TLS clients whose certificates have different identifiers connect to the server built
+by `NewServer` (`UseConnectionClientID`), their connections being identified by ONE extractor in any order.
+A decrypt request over B's connection naming ANY client id is an error for every stored value A can decrypt. -/
+theorem tls_server_cross_client {c : CryptoOps} (hl : SealLaws c) (hc : SealCommit c) (hm : MsgCommit c)
+    {pairs syms : History} (hp : Fresh pairs) (hs : Fresh syms)
+    (e : Extractor) {certA certB : Option Cert} {ia ib a b : Bytes}
+    (hia : certIdentifier e.mode certA = .ok ia) (hib : certIdentifier e.mode certB = .ok ib) (hne : ia ≠ ib)
+    (hnc : NoColl e.hash [ia, ib])
+    (seen : List (Option Cert)) (i j : Nat) (hi : seen[i]? = some certA) (hj : seen[j]? = some certB)
+    (ha : (e.run seen)[i]? = some (.ok a)) (hb : (e.run seen)[j]? = some (.ok b))
+    {k : Kind} {v m : Bytes} (hown : decryptAs c (storeOf c pairs syms) a k v = .ok m) :
+    ∀ (rpc : String) (forged : Bytes),
+      serverCall true rpc (fun r => decryptAs c (storeOf c pairs syms) r.clientId k r.payload) .err (some b) ⟨forged, v⟩ = .err := by
+  intro rpc forged
+  rw [Extractor.run_eq_map] at ha hb
+  simp only [List.getElem?_map, hi, hj, Option.map_some, Option.some.injEq] at ha hb
+  have hab : a ≠ b := tls_identity_injective_partial e.hash e.mode _ hnc hia hib (by simp) (by simp) hne ha hb
+  unfold serverCall
+  cases hr : regOf rpc with
+  | none => rfl
+  | some reg =>
+    cases hw : rpcTable.find? (·.name == rpc) with
+    | none => rfl
+    | some row =>
+      simp only []
+      unfold serverMethod
+      rw [if_pos ⟨fact_every_registration_wrapped reg (regOf_mem hr), rfl⟩]
+      exact tls_cross_client hl hc hm hp hs hab hown row (List.mem_of_find?_eq_some hw) forged
+
 /-! ## non-vacuity
 
 The hypotheses of the theorems above are jointly satisfiable by concrete, non-trivial instances:
@@ -561,6 +748,33 @@ example : ∃ blob, v2KeyEncrypt boxOps [42] (v2RingPath .storageSym exA) .symme
 /-- the TLS table is inhabited and a forged id is ignored on a concrete row -/
 example : rpcTable.length = 11 ∧
     (rpcTable.map fun row => forwardedId row (some exB) ⟨exA, []⟩) = List.replicate 11 (some exB) := by decide
+
+/-- TLS identities: two certificates that share the common name and differ in the organisational unit, a
+third with the same subject as the first under another serial number. Identifiers and ids are as the theorems
+say, in either order on one extractor (SHA-512 replaced by the identity function to keep the terms small) -/
+def exNameA : Name := ⟨[], [], [], [], [], [[69, 120]], [[112, 97, 121]], [98, 105, 108, 108], []⟩   -- O=Ex, OU=pay, CN=bill
+def exNameB : Name := { exNameA with orgUnit := [[109, 107, 116]] }                                      -- OU=mkt
+def exCertA : Cert := ⟨exNameA, 1001⟩
+def exCertB : Cert := ⟨exNameB, 2002⟩
+def exCertA' : Cert := ⟨exNameA, 2002⟩
+def exExtractor (m : IdMode) : Extractor := ⟨m, id⟩
+
+example : dnString exNameA = [67, 78, 61, 98, 105, 108, 108, 44, 79, 85, 61, 112, 97, 121, 44, 79, 61, 69, 120] ∧  -- "CN=bill,OU=pay,O=Ex"
+    dnString exNameA ≠ dnString exNameB ∧ NoColl (exExtractor .distinguishedName).hash [dnString exNameA, dnString exNameB] ∧
+    natBE 1001 = [3, 233] ∧ natBE 0 = [] ∧
+    escapeValue [32, 97, 44, 35, 32] = [92, 32, 97, 92, 44, 35, 92, 32] ∧ escapeValue [35, 43] = [92, 35, 92, 43] ∧
+    (∃ a b, (exExtractor .distinguishedName).run [some exCertA, some exCertB, some exCertA', none] = [.ok a, .ok b, .ok a, .err] ∧ a ≠ b) ∧
+    (∃ a b, (exExtractor .distinguishedName).run [some exCertB, some exCertA] = [.ok b, .ok a] ∧ a ≠ b) ∧
+    (∃ a b, (exExtractor .serialNumber).run [some exCertA, some exCertB, some exCertA'] = [.ok a, .ok b, .ok b] ∧ a ≠ b) ∧
+    certIdentifier .distinguishedName (some ⟨⟨[], [], [], [], [], [], [], [], []⟩, 5⟩) = .err :=
+  ⟨by decide, by decide, by intro x hx y hy h; exact h, by decide, by decide, by decide, by decide,
+   ⟨_, _, rfl, by decide⟩, ⟨_, _, rfl, by decide⟩, ⟨_, _, rfl, by decide⟩, by decide⟩
+
+/-- the registration table is inhabited; the server ignores a forged id on a concrete RPC of every service -/
+example : registrations.length = 6 ∧
+    (["Decrypt", "DecryptSym", "Tokenize", "Detokenize", "Encrypt", "EncryptSym", "GenerateQueryHash"].map fun rpc =>
+      serverCall true rpc (fun r => some r.clientId) none (some exB) ⟨exA, []⟩) = List.replicate 7 (some exB) ∧
+    serverCall true "NoSuchRpc" (fun r => some r.clientId) none (some exB) ⟨exA, []⟩ = none := by decide
 
 end NonVacuity
 
